@@ -151,7 +151,30 @@ pub broadcast proof fn lemma_fourcc_roundtrip(v: u32)
 }
 
 // ---- ISO 639-2/T language packing (14496-12 8.4.2.3): pad bit + three 5-bit values, each = (letter - 0x60).
-// The two functions are uninterpreted here; the real language_code / language_string are ASSUMED to compute them (Verus)
-// and checked against the packing arithmetic by the Kani harnesses lang_* (C16).
-pub uninterp spec fn lang_code_spec(s: Seq<char>) -> u16;
-pub uninterp spec fn lang_string_spec(c: u16) -> Seq<char>;
+// Written from the standard: the code packs the low five bits of the first three UTF-16 units of the string (missing
+// units count as 0); the string of a code is the three characters 0x60 + field.  The real language_code / language_string
+// are proved against these (Verus, all strings / all 2^16 codes) and cross-checked on the compiled code by Kani (C16).
+pub open spec fn unit_at(u: Seq<u16>, i: int) -> u16 { if i < u.len() { u[i] } else { 0u16 } }
+pub open spec fn lang_code_spec(s: Seq<char>) -> u16 {
+    let u = utf16_units(s);
+    (((unit_at(u, 0) & 0x1f) << 10) + ((unit_at(u, 1) & 0x1f) << 5) + (unit_at(u, 2) & 0x1f)) as u16
+}
+pub open spec fn ascii_char(u: u16) -> char { (u as u8) as char }
+pub open spec fn lang_string_spec(c: u16) -> Seq<char> {
+    seq![ascii_char((((c >> 10) & 0x1f) + 0x60) as u16), ascii_char((((c >> 5) & 0x1f) + 0x60) as u16), ascii_char(((c & 0x1f) + 0x60) as u16)]
+}
+/// decode . encode is the identity on every 15-bit code (the pad bit is dropped by the decoder)
+pub proof fn lemma_lang_roundtrip(c: u16)
+    requires c < 0x8000
+    ensures lang_code_spec(lang_string_spec(c)) == c
+{
+    let s = lang_string_spec(c);
+    let a = (((c >> 10) & 0x1f) + 0x60) as u16; let b = (((c >> 5) & 0x1f) + 0x60) as u16; let d = ((c & 0x1f) + 0x60) as u16;
+    assert(((c >> 10) & 0x1f) <= 0x1f && ((c >> 5) & 0x1f) <= 0x1f && (c & 0x1f) <= 0x1f) by(bit_vector);
+    assert forall|i: int| 0 <= i < s.len() implies (#[trigger] s[i] as u32) < 0x80 by {}
+    axiom_utf16_ascii(s);
+    let u = utf16_units(s);
+    assert(u.len() == 3 && u[0] == a && u[1] == b && u[2] == d);
+    assert(c < 0x8000 ==> ((((((c >> 10) & 0x1f) + 0x60) as u16) & 0x1f) << 10) + ((((((c >> 5) & 0x1f) + 0x60) as u16) & 0x1f) << 5)
+             + ((((c & 0x1f) + 0x60) as u16) & 0x1f) == c) by(bit_vector);
+}
